@@ -7,6 +7,11 @@ ids = [p["id"] for p in props]
 
 # id -> (category, technique, level text, level note, design ref)
 CHECKS = {
+ "C01": ("model_checking",
+         "explicit-state BFS over five scenarios of real actor code with a conservation/solvency oracle after every transition, incl. injected failures of nested sends",
+         "After every transition of (1) an economy scenario (plain sends of 4 amounts to accounts, fresh key/f4 addresses, a foreign namespace, miner, multisig, burnt funds, reward actor; miner creation with short/exact/excess deposit; block rewards with/without penalty and gas reward to a miner and to a non-miner; withdrawals; ticks; every nested value transfer and the ApplyRewards call failed by injection), (2) the payment-channel scenario, (3) the multisig scenario, (4) the market escrow scenario and (5) the miner-life walk of a poor miner with penalties, disputes and failing reporter transfers: the sum of all actor balances equals the genesis total, burnt funds never decrease and nothing is sent from the burnt-funds account, the market holds at least the sum of escrow and no party's locked amount exceeds its escrow, every miner holds at least deposits + vesting + pledge, every payment channel holds at least what it owes, and the reward actor pays at most its balance and books exactly the block reward.",
+         "mcvm stands in for the FVM (its own transfer/rollback semantics are part of the trusted base); EVM value flows are covered by C19; amounts from small alphabets.",
+         "DESIGN.md §3 C01"),
  "C02": ("model_checking",
          "explicit-state BFS (deviation-bounded) over the real miner+power actors under the SMALL policy with a sector-status model in lock-step",
          "From several base states (sectors in one or two deadlines, fresh or aged) the default schedule 'prove every partition when its window opens, real cron every epoch' is walked to the horizon and every placement of up to k deviations (skip/late/bad/partial PoSt, fault and recovery declarations, terminations, disputes, compaction, new on-boarding, reused sector numbers) at every epoch offset is explored; after every message and tick the credited power must equal the sum over sectors that an independent sector-status model says are proven, healthy and unexpired, the model's statuses must equal the partition bit-fields, expirations are adopted only when the protocol's rules allow/require them, and the network totals must equal the claim sums under the consensus-minimum rule.",
